@@ -18,6 +18,9 @@
 #ifndef SYMIDS
 #define SYMIDS 1
 #endif
+#ifndef PRIOR
+#define PRIOR 0
+#endif
 #ifndef TFLAGS
 #define TFLAGS 0
 #endif
@@ -88,14 +91,33 @@ VP_HARNESS(h_roundtrip)
     Encoder* e = new Encoder;
     e->setDeviceId(s->deviceId);
     e->setStreamId(s->streamId);
+    Decoder* d = new Decoder;
+#if PRIOR
+    // an earlier encode call on the same encoder (other protocol version, same message type and frame size); its frames go
+    // through the same decoder first. The batch must still round-trip.
+    {
+        static uint8_t junk[16];
+        vp_bytes(junk, 8);
+        Payload pl(PayloadType(static_cast<CmpHeader::MessageType>(TYP[0]), RT), junk, 8);
+        Packet* p0 = new Packet;
+        p0->setPayload(pl);
+        p0->setVersion(VERB == 1 ? 2 : 1);
+        DataContext c0{MINB, MAXB};
+        Frames* f0 = new Frames(e->encode(*p0, c0));
+        for (unsigned f = 0; f < 2; ++f)
+            if (f < f0->size())
+                new Packets(d->decode((*f0)[f].data(), (*f0)[f].size()));
+    }
+#endif
 #if STARTC >= 0
     s->start = STARTC;  // concrete counter start (segmented shapes): keeps the decoder's accept/reject of each segment concrete
 #endif
+#if !PRIOR
     VerifAccess::seq(*e) = s->start;
+#endif
     Frames* fr = doEncode(*e, pk);
     vp_assert(fr->size() <= MAXFR, "harness bound MAXFR");
 
-    Decoder* d = new Decoder;
     unsigned got = 0;
     for (unsigned f = 0; f < MAXFR; ++f)
         if (f < fr->size())
